@@ -175,13 +175,54 @@ Encode(enc, cps) ==
     CASE enc = "UTF8"      -> Flat([i \in 1 .. Len(cps) |-> UTF8(cps[i])])
       [] enc = "UTF16BE"   -> Flat([i \in 1 .. Len(cps) |-> UnitsBE(UTF16Units(cps[i]))])
       [] enc = "UTF16LE"   -> Flat([i \in 1 .. Len(cps) |-> UnitsLE(UTF16Units(cps[i]))])
-      [] enc = "UTF16"     -> <<255, 254>> \o Flat([i \in 1 .. Len(cps) |-> UnitsLE(UTF16Units(cps[i]))])   \* BOM, little endian
+      [] enc = "UTF16"     -> IF cps = <<>> THEN <<>>          \* nothing to mark; otherwise BOM, little endian
+                              ELSE <<255, 254>> \o Flat([i \in 1 .. Len(cps) |-> UnitsLE(UTF16Units(cps[i]))])
       [] enc = "ISO8859_1" -> cps
 UTF8Bytes(cps) == Encode("UTF8", cps)
 \* Decoding malformed byte sequences (lone surrogate, truncated unit, stray continuation byte): the
 \* Unicode-conformant answers are an error or a U+FFFD replacement marking the damage; a string without
 \* the mark is a wrong value.
 DecodeMalformedOK(isErr, cps) == isErr \/ \E i \in 1 .. Len(cps) : cps[i] = 65533
+
+(* Well-formedness of encoded text (Unicode 15, table 3-7 for UTF-8; surrogate pairing for UTF-16). *)
+Cont(b) == b \in 128 .. 191
+RECURSIVE U8WF(_, _)
+U8WF(b, i) ==
+    IF i > Len(b) THEN TRUE
+    ELSE LET c == b[i]
+             n == Len(b)
+             C(k) == i + k <= n /\ Cont(b[i + k])
+         IN IF c < 128 THEN U8WF(b, i + 1)
+            ELSE IF c \in 194 .. 223 THEN C(1) /\ U8WF(b, i + 2)
+            ELSE IF c = 224 THEN i + 1 <= n /\ b[i + 1] \in 160 .. 191 /\ C(2) /\ U8WF(b, i + 3)
+            ELSE IF c \in 225 .. 236 \/ c \in 238 .. 239 THEN C(1) /\ C(2) /\ U8WF(b, i + 3)
+            ELSE IF c = 237 THEN i + 1 <= n /\ b[i + 1] \in 128 .. 159 /\ C(2) /\ U8WF(b, i + 3)
+            ELSE IF c = 240 THEN i + 1 <= n /\ b[i + 1] \in 144 .. 191 /\ C(2) /\ C(3) /\ U8WF(b, i + 4)
+            ELSE IF c \in 241 .. 243 THEN C(1) /\ C(2) /\ C(3) /\ U8WF(b, i + 4)
+            ELSE IF c = 244 THEN i + 1 <= n /\ b[i + 1] \in 128 .. 143 /\ C(2) /\ C(3) /\ U8WF(b, i + 4)
+            ELSE FALSE
+RECURSIVE U16WF(_, _)
+U16WF(us, i) ==
+    IF i > Len(us) THEN TRUE
+    ELSE IF us[i] \in 55296 .. 56319 THEN i + 1 <= Len(us) /\ us[i + 1] \in 56320 .. 57343 /\ U16WF(us, i + 2)
+    ELSE IF us[i] \in 56320 .. 57343 THEN FALSE
+    ELSE U16WF(us, i + 1)
+UnitsOf(be, b) == [i \in 1 .. (Len(b) \div 2) |-> IF be THEN 256 * b[2 * i - 1] + b[2 * i] ELSE 256 * b[2 * i] + b[2 * i - 1]]
+\* "UTF16": a byte order mark selects the byte order and is removed, little endian without one
+Utf16Be(enc, b) == enc = "UTF16BE" \/ (enc = "UTF16" /\ Len(b) >= 2 /\ b[1] = 254 /\ b[2] = 255)
+Utf16Body(enc, b) == IF enc = "UTF16" /\ Len(b) >= 2 /\ ((b[1] = 254 /\ b[2] = 255) \/ (b[1] = 255 /\ b[2] = 254))
+                     THEN SubSeq(b, 3, Len(b)) ELSE b
+EncodedWF(enc, b) == CASE enc = "UTF8" -> U8WF(b, 1)
+                       [] enc \in {"UTF16", "UTF16LE", "UTF16BE"} ->
+                            LET body == Utf16Body(enc, b) IN Len(body) % 2 = 0 /\ U16WF(UnitsOf(Utf16Be(enc, b), body), 1)
+                       [] enc = "ISO8859_1" -> TRUE
+\* the decoding relation: cps is THE string whose encoding is b (the encoders are injective)
+DecodesTo(enc, b, cps) ==
+    /\ \A i \in 1 .. Len(cps) : IsScalar(cps[i])
+    /\ CASE enc = "UTF8" -> Encode("UTF8", cps) = b
+         [] enc = "ISO8859_1" -> cps = b
+         [] OTHER -> Encode(IF Utf16Be(enc, b) THEN "UTF16BE" ELSE "UTF16LE", cps) = Utf16Body(enc, b)
+DecodeLaw(enc, b, ok, cps) == IF EncodedWF(enc, b) THEN ok /\ DecodesTo(enc, b, cps) ELSE DecodeMalformedOK(~ok, cps)
 
 (***************************************************************************)
 (* 1e. URL escaping by character class (RFC 3986), on the UTF-8 bytes.     *)
@@ -224,7 +265,8 @@ UrlEscapeRequired(mode, bs, t) ==
 (*   [t |-> "null"]   [t |-> "bool", b |-> TRUE]                           *)
 (*   [t |-> "num", k |-> "int", neg |-> FALSE, d |-> <<1, 2>>]  canonical   *)
 (*       decimal digits, no leading zero, 0 = <<0>>, never "-0"            *)
-(*   [t |-> "num", k |-> "flt", txt |-> "1.5"]  non-integral finite float,  *)
+(*   [t |-> "num", k |-> "flt", neg |-> FALSE, txt |-> "1.5"]  non-integral *)
+(*       finite float,                                                    *)
 (*       shortest round-trip text (integral floats are k = "int")          *)
 (*   [t |-> "str", cp |-> <<97>>]                                          *)
 (*   [t |-> "arr", e |-> <<v1, ..>>]                                       *)
@@ -234,7 +276,7 @@ UrlEscapeRequired(mode, bs, t) ==
 VNull == [t |-> "null"]
 VBool(b) == [t |-> "bool", b |-> b]
 VInt(neg, d) == [t |-> "num", k |-> "int", neg |-> neg, d |-> d]
-VFlt(txt) == [t |-> "num", k |-> "flt", txt |-> txt]
+VFlt(neg, txt) == [t |-> "num", k |-> "flt", neg |-> neg, txt |-> txt]
 VStr(cp) == [t |-> "str", cp |-> cp]
 VArr(e) == [t |-> "arr", e |-> e]
 VObj(ks, e) == [t |-> "obj", ks |-> ks, e |-> e]
@@ -256,11 +298,21 @@ NoNull(v) == v.t # "null" /\ \A i \in 1 .. Len(Kids(v)) : NoNull(Kids(v)[i])
 RECURSIVE NumsInInt64(_)
 NumsInInt64(v) == (v.t = "num" => InInt64(v)) /\ \A i \in 1 .. Len(Kids(v)) : NumsInInt64(Kids(v)[i])
 RECURSIVE HasNegNum(_)
-HasNegNum(v) == (v.t = "num" /\ (IF v.k = "int" THEN v.neg ELSE TRUE)) \/ \E i \in 1 .. Len(Kids(v)) : HasNegNum(Kids(v)[i])
+HasNegNum(v) == (v.t = "num" /\ v.neg) \/ \E i \in 1 .. Len(Kids(v)) : HasNegNum(Kids(v)[i])
 RECURSIVE HasEmptyStr(_)
 HasEmptyStr(v) == \/ (v.t = "str" /\ v.cp = <<>>)
                   \/ (v.t = "obj" /\ \E i \in 1 .. Len(v.ks) : v.ks[i] = <<>>)
                   \/ \E i \in 1 .. Len(Kids(v)) : HasEmptyStr(Kids(v)[i])
+RECURSIVE HasKey(_, _)
+HasKey(v, key) == (v.t = "obj" /\ \E i \in 1 .. Len(v.ks) : v.ks[i] = key) \/ \E i \in 1 .. Len(Kids(v)) : HasKey(Kids(v)[i], key)
+\* Unicode white space (what Go's strings.TrimSpace removes)
+XmlSpace(c) == c \in {9, 10, 11, 12, 13, 32, 133, 160, 5760, 8232, 8233, 8239, 8287, 12288} \/ c \in 8192 .. 8202
+\* a multi-line string (value or key) whose first line is empty or only white space
+BlankFirstLine(cp) == \E p \in 1 .. Len(cp) : cp[p] = 10 /\ \A q \in 1 .. (p - 1) : XmlSpace(cp[q])
+RECURSIVE HasBlankFirstLine(_)
+HasBlankFirstLine(v) == \/ (v.t = "str" /\ BlankFirstLine(v.cp))
+                        \/ (v.t = "obj" /\ \E i \in 1 .. Len(v.ks) : BlankFirstLine(v.ks[i]))
+                        \/ \E i \in 1 .. Len(Kids(v)) : HasBlankFirstLine(Kids(v)[i])
 \* structural well-formedness of a projected value (object keys ascending and distinct)
 RECURSIVE WellFormedVal(_)
 WellFormedVal(v) ==
@@ -295,7 +347,6 @@ LowerOf(c) == IF c \in 65 .. 90 THEN c + 32 ELSE c
 XmlName(cp) == /\ Len(cp) >= 1 /\ NameStart(cp[1]) /\ \A i \in 1 .. Len(cp) : NameChar(cp[i])
                /\ ~(Len(cp) >= 3 /\ LowerOf(cp[1]) = 120 /\ LowerOf(cp[2]) = 109 /\ LowerOf(cp[3]) = 108)   \* "xml.." reserved
 XmlChar(c) == c \in {9, 10, 13} \/ c \in 32 .. 55295 \/ c \in 57344 .. 65533 \/ c \in 65536 .. 1114111
-XmlSpace(c) == c \in {9, 10, 11, 12, 13, 32, 133, 160, 5760, 8232, 8233, 8239, 8287, 12288} \/ c \in 8192 .. 8202
 XmlChars(cp) == \A i \in 1 .. Len(cp) : XmlChar(cp[i])
 XmlText(cp) == XmlChars(cp) /\ (cp = <<>> \/ (~XmlSpace(cp[1]) /\ ~XmlSpace(cp[Len(cp)])))
 HashText == <<35, 116, 101, 120, 116>>           \* "#text"
@@ -327,8 +378,8 @@ UrlQueryDom(v) == /\ IsObj(v)
                                               \/ (IsArr(v.e[i]) /\ Len(v.e[i].e) >= 2 /\ \A j \in 1 .. Len(v.e[i].e) : IsStr(v.e[i].e[j]))
 
 Serialisers == {"json", "jq", "jsonl", "yaml", "toml", "csv", "xml", "xmla", "urlquery"}
-InDomain(f, v) == CASE f = "json"  -> JsonDom(v)
-                    [] f = "jq"    -> JqDom(v)
+InDomain(f, v) == CASE f \in {"json", "json_i"} -> JsonDom(v)
+                    [] f \in {"jq", "jq_i"} -> JqDom(v)
                     [] f = "jsonl" -> JsonlDom(v)
                     [] f = "yaml"  -> YamlDom(v)
                     [] f = "toml"  -> TomlDom(v)
@@ -352,12 +403,39 @@ CsvSig(v) ==
     ELSE "csv.roundtrip"
 RoundTripSig(f, x, ok) ==
     CASE f = "csv"  -> CsvSig(x)
-      [] f = "jq"   -> IF HasNegNum(x) /\ ~ok THEN "jq.negative_number_unreadable"
+      [] f \in {"jq", "jq_i"} -> IF HasNegNum(x) /\ ~ok THEN "jq.negative_number_unreadable"
                        ELSE IF HasEmptyStr(x) THEN "jq.empty_string_lost"
                        ELSE "jq.roundtrip"
-      [] f = "toml" -> IF x = VObj(<<>>, <<>>) THEN "toml.empty_table_eof" ELSE "toml.roundtrip"
+      [] f = "yaml" -> IF HasKey(x, <<60, 60>>) THEN "yaml.key_ltlt_read_as_merge_key"
+                       ELSE IF HasBlankFirstLine(x) THEN "yaml.multiline_string_with_blank_first_line"
+                       ELSE "yaml.roundtrip"
+      [] f = "toml" -> IF x = VObj(<<>>, <<>>) THEN "toml.empty_table_eof"
+                       ELSE IF HasKey(x, <<>>) THEN "toml.empty_key_in_inline_table_within_array"
+                       ELSE "toml.roundtrip"
       [] f = "jsonl" -> IF x = VArr(<<>>) THEN "jsonl.empty_array_refused" ELSE "jsonl.roundtrip"
       [] OTHER      -> f \o ".roundtrip"
+
+(***************************************************************************)
+(* Malformed documents: texts that are not a document of the format under  *)
+(* any reading; From(text) must be an error.                               *)
+(***************************************************************************)
+MalformedDocs == {
+    <<"json", "">>, <<"json", "[1,">>, <<"json", "[1,]">>, <<"json", "{\"a\":">>, <<"json", "{\"a\":1,}">>, <<"json", "{a:1}">>,
+    <<"json", "1 2">>, <<"json", "[1] x">>, <<"json", "'a'">>, <<"json", "nul">>, <<"json", "\"abc">>, <<"json", "[1 2]">>,
+    <<"json", "{\"a\" 1}">>, <<"json", "-">>, <<"json", "1.">>, <<"json", "+1">>, <<"json", "[">>, <<"json", "]">>, <<"json", "NaN">>,
+    <<"json", "\"\\x\"">>, <<"json", "{\"a\":1}}">>, <<"json", "[1]]">>, <<"json", "tru">>, <<"json", "{1:2}">>,
+    <<"jq", "">>, <<"jq", "{a:}">>, <<"jq", "[1,">>, <<"jq", "1 +">>, <<"jq", "if">>, <<"jq", "{\"a\" 1}">>, <<"jq", "[1 2]">>, <<"jq", "\"abc">>,
+    <<"jq", "1+1">>, <<"jq", ".a">>, <<"jq", "\"\\(1)\"">>, <<"jq", "[.]">>, <<"jq", "{a:.}">>, <<"jq", "$x">>, <<"jq", "[1,2] | length">>,
+    <<"yaml", "a: [">>, <<"yaml", "a: b: c">>, <<"yaml", "\"unterminated">>, <<"yaml", "{a: 1">>, <<"yaml", "a:\n\t- b">>, <<"yaml", "- a\nb: c">>,
+    <<"yaml", "a: *unknown">>, <<"yaml", "[1, 2">>, <<"yaml", "a: 1\n b: 2">>, <<"yaml", "a: 'x">>, <<"yaml", "- [a\n- b]x]">>,
+    <<"toml", "a = ">>, <<"toml", "a">>, <<"toml", "= 1">>, <<"toml", "a = 1\na = 2">>, <<"toml", "[a\nb=1">>, <<"toml", "a = \"x">>,
+    <<"toml", "a = 01">>, <<"toml", "a = 1 b = 2">>, <<"toml", "a = [1,">>, <<"toml", "[a]\n[a]">>, <<"toml", "a = {b = 1">>,
+    <<"xml", "">>, <<"xml", "a">>, <<"xml", "<a">>, <<"xml", "<a></b>">>, <<"xml", "<1a/>">>, <<"xml", "<a/><b/>">>,
+    <<"xml", "<a/>x">>, <<"xml", "<a b=\"1></a>">>, <<"xml", "</a>">>, <<"xml", "<a>&unknown;</a>x<">>, <<"xml", "<a><!-- x</a>">>,
+    <<"csv", "a,b\nc\n">>, <<"csv", "a\nb,c\n">>, <<"csv", "a,b,c\nd,e\nf,g,h\n">>,
+    <<"jsonl", "[1,">>, <<"jsonl", "1\n{\"a\":\n">>, <<"jsonl", "nul">>,
+    <<"urlquery", "a=%zz">>, <<"urlquery", "%=1">>, <<"urlquery", "a=%4">>
+}
 
 (***************************************************************************)
 (* 3. Hashes.  Agreement with the library digest over the zero-padded      *)
